@@ -51,8 +51,19 @@ func c09ShedRun(r *zsim.Run) {
 	// overloaded throughout - hundreds of passes per bucket, so the capacity the window implies lies well above
 	// the handful of callers and nothing may be shed
 	fast := o.Intn(8) == 0
+	fastLat, fastN := 300*time.Microsecond, 150
 	if fast {
-		window, buckets = 500*time.Millisecond, 50
+		switch o.Intn(3) {
+		case 0:
+			window, buckets = 500*time.Millisecond, 50
+		case 1:
+			// the same with callers that saturate 600ms buckets (1.67 per second) ...
+			window, buckets, fastLat, fastN = 3*time.Second, 5, 100*time.Millisecond, 25
+		default:
+			// ... and 3s buckets (a third of a bucket per second): in-flight never exceeds the number of callers,
+			// which is what the window's capacity comes to
+			window, buckets, fastLat, fastN = 15*time.Second, 5, 100*time.Millisecond, 100
+		}
 	}
 	threshold := int64(900)
 	var overloadReads []time.Duration
@@ -277,7 +288,7 @@ func c09ShedRun(r *zsim.Run) {
 		}
 		failOdds := zsim.Pick(o, 5, 5, 2, 1, 1000)
 		if fast {
-			n, lat, failOdds = 150, 300*time.Microsecond, 1000
+			n, lat, failOdds = fastN, fastLat, 1000
 		}
 		r.Go(fmt.Sprintf("caller%d", c), func() {
 			defer func() { done++ }()
